@@ -2,6 +2,7 @@ package c13
 
 import (
 	"encoding/binary"
+	"encoding/json"
 	"fmt"
 	"io"
 	"math"
@@ -35,10 +36,12 @@ const (
 	pString = iota
 	pInt
 	pFile
-	pVec // parameter.Vector3Array: slice-valued, its data is aliased by meshes built from it
+	pVec   // parameter.Vector3Array: slice-valued, its data is aliased by meshes built from it
+	pFloat // parameter.Float64 over signed zeros, denormals, +-MaxFloat64: values are compared by BITS
+	pVec3  // parameter.Vector3 with such components
 )
 
-var pKindName = []string{"string", "int", "file", "vec"}
+var pKindName = []string{"string", "int", "file", "vec", "float", "vec3"}
 
 type paramDesc struct {
 	Kind int    `json:"kind"`
@@ -227,6 +230,10 @@ func designGraph(r *rand.Rand) *graphDesc {
 		g.Params[1].Kind = pVec // the parameter shared by M1 and M2
 		g.Shape = "design+vec"
 	}
+	if r.Intn(2) == 0 {
+		g.Params[0].Kind = []int{pFloat, pVec3}[r.Intn(2)] // the parameter that reaches T by two routes
+		g.Shape += "+float"
+	}
 	g.Nodes = []nodeDesc{
 		{In: []int{pref(0), pref(1)}},
 		{In: []int{pref(1), pref(2)}},
@@ -248,13 +255,17 @@ func randomGraph(r *rand.Rand) *graphDesc {
 	np := 2 + r.Intn(4)
 	for k := 0; k < np; k++ {
 		kind := pString
-		switch r.Intn(8) {
+		switch r.Intn(12) {
 		case 0, 1:
 			kind = pInt
 		case 2:
 			kind = pFile
 		case 3, 4, 5:
 			kind = pVec
+		case 6, 7, 8:
+			kind = pFloat
+		case 9, 10:
+			kind = pVec3
 		}
 		g.Params = append(g.Params, paramDesc{Kind: kind})
 	}
@@ -443,15 +454,96 @@ func (d BytesToStringData) Process() (string, error) {
 
 type BytesToStringNode = nodes.Struct[string, BytesToStringData]
 
+// ---- float parameters ----------------------------------------------------------------
+//
+// Values are compared by BITS: the display of a float is "x" + 16 hex digits of its IEEE bits
+// (of a Vector3: 48 digits). +0 and -0, which compare == but are different values (1/x is
+// +Inf or -Inf), therefore differ in every rendering and in every read.
+
+var specialFloats = []float64{0, math.Copysign(0, -1), 0, math.Copysign(0, -1), 5e-324, -5e-324, math.MaxFloat64, -math.MaxFloat64, 1, -1, 2.2250738585072014e-308}
+
+func floatDisplay(v float64) string { return fmt.Sprintf("x%016x", math.Float64bits(v)) }
+
+func vec3Display(x, y, z float64) string {
+	return fmt.Sprintf("x%016x%016x%016x", math.Float64bits(x), math.Float64bits(y), math.Float64bits(z))
+}
+
+func parseFloatDisplay(display string) []float64 {
+	var out []float64
+	for i := 1; i+16 <= len(display); i += 16 {
+		b, _ := strconv.ParseUint(display[i:i+16], 16, 64)
+		out = append(out, math.Float64frombits(b))
+	}
+	return out
+}
+
+func jsonFloat(v float64) string { return strconv.FormatFloat(v, 'g', -1, 64) }
+
+// readCanon turns what ParameterData returned for a float-valued parameter into its display
+// (so that the comparison with the model is on bits, not on the text of the number).
+func readCanon(kind int, raw string) string {
+	switch kind {
+	case pFloat:
+		if v, err := strconv.ParseFloat(strings.TrimSpace(raw), 64); err == nil {
+			return floatDisplay(v)
+		}
+	case pVec3:
+		var t struct{ X, Y, Z *float64 }
+		if json.Unmarshal([]byte(raw), &t) == nil && t.X != nil && t.Y != nil && t.Z != nil {
+			return vec3Display(*t.X, *t.Y, *t.Z)
+		}
+	}
+	return raw
+}
+
+// readExpect is what a read of the parameter must show (after readCanon) in state `display`.
+func readExpect(kind int, display string) string {
+	if kind == pFloat || kind == pVec3 {
+		return display
+	}
+	return string(encodeParam(kind, display))
+}
+
+// FloatToStringData / Vec3ToStringData render the BITS (sign sensitive) into the text DAG.
+type FloatToStringData struct {
+	In   nodes.NodeOutput[float64]
+	Plan *pausePlan
+}
+
+func (d FloatToStringData) Process() (string, error) {
+	v := floatDisplay(d.In.Value())
+	d.Plan.pause(0)
+	return v, nil
+}
+
+type FloatToStringNode = nodes.Struct[string, FloatToStringData]
+
+type Vec3ToStringData struct {
+	In   nodes.NodeOutput[vector3.Float64]
+	Plan *pausePlan
+}
+
+func (d Vec3ToStringData) Process() (string, error) {
+	v := d.In.Value()
+	d.Plan.pause(0)
+	return vec3Display(v.X(), v.Y(), v.Z()), nil
+}
+
+type Vec3ToStringNode = nodes.Struct[string, Vec3ToStringData]
+
 // ---- vector parameters ---------------------------------------------------------------
 //
 // A value of a vector parameter is identified by (id, n): n elements (id, j, n), j = 0..n-1;
 // its display text is "v<id>x<n>". Any other content (elements of two values mixed, wrong
 // count) is displayed as "mix..." and is the rendering of no state.
 
-func vecDisplay(pts [][3]int) string {
+func vecDisplay(pts [][3]int, negY0 bool) string {
 	if len(pts) == 0 {
 		return "empty"
+	}
+	m := ""
+	if negY0 {
+		m = "m" // element 0's y (always zero) is -0
 	}
 	ok := true
 	for j, p := range pts {
@@ -460,10 +552,10 @@ func vecDisplay(pts [][3]int) string {
 		}
 	}
 	if ok {
-		return fmt.Sprintf("v%dx%d", pts[0][0], len(pts))
+		return fmt.Sprintf("v%dx%d%s", pts[0][0], len(pts), m)
 	}
 	var b strings.Builder
-	b.WriteString("mix")
+	b.WriteString("mix" + m)
 	for _, p := range pts {
 		fmt.Fprintf(&b, "i%dj%dn%d", p[0], p[1], p[2])
 	}
@@ -475,11 +567,16 @@ func parseVec(display string) (id, n int) {
 	return
 }
 
+func vecNeg(display string) bool { return strings.HasSuffix(display, "m") }
+
 func vecPoints(display string) []vector3.Float64 {
 	id, n := parseVec(display)
 	out := make([]vector3.Float64, n)
 	for j := range out {
 		out[j] = vector3.New(float64(id), float64(j), float64(n))
+	}
+	if n > 0 && vecNeg(display) {
+		out[0] = vector3.New(float64(id), math.Copysign(0, -1), float64(n))
 	}
 	return out
 }
@@ -494,10 +591,14 @@ func vecJSON(display string, badAt int) []byte {
 		if j > 0 {
 			b.WriteByte(',')
 		}
+		y := fmt.Sprint(j)
+		if j == 0 && vecNeg(display) {
+			y = "-0"
+		}
 		if j == badAt {
-			fmt.Fprintf(&b, `{"x":"%d","y":%d,"z":%d}`, id, j, n)
+			fmt.Fprintf(&b, `{"x":"%d","y":%s,"z":%d}`, id, y, n)
 		} else {
-			fmt.Fprintf(&b, `{"x":%d,"y":%d,"z":%d}`, id, j, n)
+			fmt.Fprintf(&b, `{"x":%d,"y":%s,"z":%d}`, id, y, n)
 		}
 	}
 	b.WriteByte(']')
@@ -509,7 +610,7 @@ func sliceDisplay(v []vector3.Float64) string {
 	for i, p := range v {
 		pts[i] = [3]int{int(p.X()), int(p.Y()), int(p.Z())}
 	}
-	return vecDisplay(pts)
+	return vecDisplay(pts, len(v) > 0 && v[0].Y() == 0 && math.Signbit(v[0].Y()))
 }
 
 // VecToStringData renders a vector parameter into the text DAG (a copy, made under the lock).
@@ -555,13 +656,18 @@ func decodeSTL(b []byte) string {
 		return fmt.Sprintf("mixsize%dfor%d", len(b), n)
 	}
 	pts := make([][3]int, n)
+	negY0 := false
 	for k := 0; k < n; k++ {
 		off := 84 + 50*k + 12
 		for c := 0; c < 3; c++ {
-			pts[k][c] = int(math.Float32frombits(binary.LittleEndian.Uint32(b[off+4*c:])))
+			f := math.Float32frombits(binary.LittleEndian.Uint32(b[off+4*c:]))
+			pts[k][c] = int(f)
+			if k == 0 && c == 1 && f == 0 && math.Signbit(float64(f)) {
+				negY0 = true
+			}
 		}
 	}
-	return vecDisplay(pts)
+	return vecDisplay(pts, negY0)
 }
 
 // SlowText is a harness artifact whose Write is slow: the encoder keeps working for a while
@@ -624,6 +730,11 @@ func encodeParam(kind int, display string) []byte {
 		return []byte(display)
 	case pVec:
 		return vecJSON(display, -1)
+	case pFloat:
+		return []byte(jsonFloat(parseFloatDisplay(display)[0]))
+	case pVec3:
+		f := parseFloatDisplay(display)
+		return []byte(fmt.Sprintf(`{"x":%s,"y":%s,"z":%s}`, jsonFloat(f[0]), jsonFloat(f[1]), jsonFloat(f[2])))
 	}
 	return []byte(display)
 }
@@ -654,6 +765,18 @@ func build(d *graphDesc, r *rand.Rand, intensity int, viaApp bool) *live {
 			pnodes[k] = n
 			vouts[k] = n.Out()
 			pouts[k] = (&VecToStringNode{Data: VecToStringData{In: n.Out(), Plan: genPlan(r, &lv.execs, intensity)}}).Out()
+		case pFloat:
+			v := []float64{0, math.Copysign(0, -1), 1.5}[k%3]
+			p.Init = floatDisplay(v)
+			n := &parameter.Float64{Name: fmt.Sprintf("p%d", k), DefaultValue: v}
+			pnodes[k] = n
+			pouts[k] = (&FloatToStringNode{Data: FloatToStringData{In: n.Out(), Plan: genPlan(r, &lv.execs, intensity)}}).Out()
+		case pVec3:
+			x, y, z := 0.0, math.Copysign(0, -1), float64(k)
+			p.Init = vec3Display(x, y, z)
+			n := &parameter.Vector3{Name: fmt.Sprintf("p%d", k), DefaultValue: vector3.New(x, y, z)}
+			pnodes[k] = n
+			pouts[k] = (&Vec3ToStringNode{Data: Vec3ToStringData{In: n.Out(), Plan: genPlan(r, &lv.execs, intensity)}}).Out()
 		case pFile:
 			p.Init = fmt.Sprintf("f%dinit", k)
 			n := &parameter.File{Name: fmt.Sprintf("p%d", k)}
